@@ -12,7 +12,10 @@ RULE = ("three families. (1) IDMan scripts: every sequence of length <= L (L=4 q
         "desired ids in -3..12 and 2**40; results, used set and search_pos compared after the script. "
         "(2) EntityFixup tables: every initial list of length <= 3 over 3 variables x indexes {0,1,2,3} followed by "
         "every set/delete script of length <= 2 over 4 variables, plus random longer ones; the (variable,index) table "
-        "in dict order compared after every step. (3) histories: random sequences (length <= 45) of the operations "
+        "in dict order compared after every step; (2b) up to three tables side by side: copy.copy / copy.deepcopy / "
+        "EntityFixup(copy_values()) of a table followed by interleaved set / setdefault / del / pop / clear on all of them "
+        "(every script of length <= 3 over 20 steps containing a copy, from 4 initial tables, plus random scripts of length <= 24), "
+        "every table scanned for duplicate / non-positive indexes after every step. (3) histories: random sequences (length <= 45) of the operations "
         "newmap / Entity() / add_ent / remove / Side() / Solid() / add_brush / remove_brush / copy (same map, other "
         "map; entity, brush, face, group, visgroup) / drop a reference (=> __del__ when it was the last) / take a "
         "reference to a child, vmf.entities[i], vmf.brushes[i], vmf.spawn / nodeid set, del, pop / EntityGroup() / "
@@ -32,7 +35,7 @@ TRUSTED = [
 ]
 NOT_MODELLED = [
     "NullIDMan (maps opened with preserve_ids=True are exempt by the property's definition)",
-    "objects cloned by copy.copy / pickle (they bypass get_id)",
+    "Solid / Entity objects cloned by copy.copy / pickle (they bypass get_id); copy.copy / deepcopy of an EntityFixup IS covered",
     "instance collapse (srctools.instancing) itself: it is built from Entity.copy(vmf_file=...), Solid.copy, add_ent/add_brush "
     "and node_id.get_id, which are modelled; the direct search collapses generated instances into generated maps and scans the ids; "
     "VMF.add_ents (same body as add_ent)",
@@ -271,6 +274,79 @@ def _run_fix(init, script):
     return out
 
 
+def _fixtab_cases(ctx):
+    """Several tables side by side: copy.copy / copy.deepcopy / EntityFixup(copy_values()) then
+    interleaved set / setdefault / del / pop / clear on both."""
+    steps = ([['s', t, v] for t in (0, 1) for v in (1, 2, 4)] + [['d', t, v] for t in (0, 1) for v in (1, 2, 4)]
+             + [['clr', 0], ['clr', 1], ['cp', 1, 0], ['cp', 0, 1], ['ctor', 1, 0], ['cp', 2, 1]])
+    inits = [[], [[1, 1], [2, 2]], [[1, 1], [2, 2], [3, 3]], [[1, 2], [2, 2], [3, 1]]]
+    L = ctx.budget(3, 3)
+    for init in inits:
+        for n in range(1, L + 1):
+            for sc in itertools.product(steps, repeat=n):
+                if any(s[0] in ('cp', 'ctor') for s in sc):
+                    yield init, [list(s) for s in sc]
+    rng = ctx.rng
+    for _ in range(ctx.budget(4000, 40000)):
+        init = [[rng.randrange(1, 7), rng.choice([1, 1, 2, 2, 3, 4, 5, 0])] for _ in range(rng.randrange(0, 7))]
+        sc = []
+        for _ in range(rng.randrange(2, 25)):
+            k = rng.choice(['s', 's', 's', 'd', 'd', 'clr', 'cp', 'cp', 'ctor'])
+            if k in ('s', 'd'):
+                sc.append([k, rng.randrange(3), rng.randrange(1, 9)])
+            elif k == 'clr':
+                sc.append([k, rng.randrange(3)])
+            else:
+                sc.append([k, rng.randrange(3), rng.randrange(3)])
+        yield init, sc
+
+
+def _run_fixtabs(init, script):
+    import copy
+    from srctools.vmf import EntityFixup, FixupValue
+    tabs = {0: EntityFixup([FixupValue(c08_impl.var_name(v, (i + j) % 2), 'x', i) for j, (v, i) in enumerate(init)])}
+    dump = lambda: [([[c08_impl.var_num(f.var), f.id] for f in tabs[i].copy_values()] if i in tabs else None) for i in range(3)]
+    out = [dump()]
+    for j, st in enumerate(script):
+        k = st[0]
+        fx = tabs.get(st[1])
+        if k == 's' and fx is not None:
+            name = c08_impl.var_name(st[2], j)
+            if j % 3 == 2 and name not in fx:
+                fx.setdefault(name, 'd')
+            else:
+                fx[name] = 'y'
+        elif k == 'd' and fx is not None:
+            name = c08_impl.var_name(st[2], j + 1)
+            if j % 2:
+                fx.pop(name, None)
+            else:
+                del fx[name]
+        elif k == 'clr' and fx is not None:
+            fx.clear()
+        elif k in ('cp', 'ctor') and st[2] in tabs:
+            src = tabs[st[2]]
+            tabs[st[1]] = (EntityFixup(src.copy_values()) if k == 'ctor'
+                           else copy.copy(src) if j % 2 else copy.deepcopy(src))
+        out.append(dump())
+    return out
+
+
+def _check_fixtabs(ctx, init, script, states):
+    given_pos = all(i > 0 for _, i in init)
+    for n, st in enumerate(states):
+        for ti, tab in enumerate(st):
+            if tab is None:
+                continue
+            idx = [i for _, i in tab]
+            if len(set(idx)) != len(idx):
+                ctx.witness('dup-fixup-index', f'EntityFixup({init}) then {script[:n]}: table {ti} has indexes {idx}', {'fixtab_init': init, 'fixtab_script': script[:n]})
+                return
+            if given_pos and any(i <= 0 for i in idx):
+                ctx.witness('nonpos-fixup-index', f'EntityFixup({init}) then {script[:n]}: table {ti} has indexes {idx}', {'fixtab_init': init, 'fixtab_script': script[:n]})
+                return
+
+
 def _check_fix_tables(ctx, init, script, tables):
     given_pos = all(i > 0 for _, i in init)
     for t in tables:
@@ -331,6 +407,19 @@ def correspond(ctx, drivers):
         ctx.count('fixup-case')
         if tabs != rep.get('tables'):
             ctx.disagree({'fix_init': init, 'fix_script': sc}, tabs, rep, 'EntityFixup table')
+        ctx.traces_vs_impl += 1
+    # (2b) several tables: copies then interleaved edits
+    cases = list(_fixtab_cases(ctx))
+    replies = []
+    for i in range(0, len(cases), 20000):
+        replies += drv.batch([{'op': 'fixtabs', 'init': a, 'script': s} for a, s in cases[i:i + 20000]])
+    for (init, sc), rep in zip(cases, replies):
+        st = _run_fixtabs(init, sc)
+        _check_fixtabs(ctx, init, sc, st)
+        ctx.case({'fixtab_init': init, 'fixtab_script': sc}, nontrivial=True, sample_every=7001)
+        ctx.count('fixup-tables-case')
+        if st != rep.get('tables'):
+            ctx.disagree({'fixtab_init': init, 'fixtab_script': sc}, st, rep, 'EntityFixup tables (copy)')
         ctx.traces_vs_impl += 1
     # (3) histories
     hists = list(_histories(ctx, ctx.budget(1200, 12000)))
@@ -439,6 +528,8 @@ def search(ctx):
                 _check_idman(ctx, sc, _run_idman(sc))
         for init, sc in itertools.islice(_fix_cases(ctx), 20000):
             _check_fix_tables(ctx, init, sc, _run_fix(init, sc))
+        for init, sc in itertools.islice(_fixtab_cases(ctx), 30000):
+            _check_fixtabs(ctx, init, sc, _run_fixtabs(init, sc))
 
 
 def _collapse_case(host_doc, inst_docs, salt):
@@ -501,6 +592,15 @@ def _replay_input(inp):
         res = _run_idman(inp['idman_script'])
         print('  ', res)
         _check_idman(c, inp['idman_script'], res)
+        return not c.w
+    if 'fixtab_init' in inp:
+        class C:
+            w = []
+            def witness(self, *a): self.w.append(a)
+        c = C()
+        st = _run_fixtabs(inp['fixtab_init'], inp['fixtab_script'])
+        print('  ', st)
+        _check_fixtabs(c, inp['fixtab_init'], inp['fixtab_script'], st)
         return not c.w
     if 'fix_init' in inp:
         class C:
